@@ -1869,6 +1869,95 @@ theorem checkMany_sound (x : Ctx) (n : Nat) (hn : n < x.nodes.size) (es : List N
     | _ :: _ :: _, hm => simp at hm
   | _ => rw [hk] at h; simp at h
 
+/-! ## nodes the compiler may fold: all leaves are integer constants -/
+
+theorem nodeVal_const (nodes : Array CNode) (env : Env) (n : Nat) (hn : n < nodes.size) (ty : Sig) (v : I32)
+    (hnd : nodes[n] = .const ty v) : nodeVal nodes env n = v := by
+  rw [nodeVal_eq nodes env n hn ty (by rw [hnd]; rfl), hnd]
+  simp [evalNode]
+
+/-- a node with constant leaves denotes its folded value, for every valuation -/
+theorem constVal_sound (nodes : Array CNode) (env : Env) :
+    ∀ (f n : Nat) (k : I32), constVal nodes f n = some k → n < nodes.size → nodeVal nodes env n = k := by
+  intro f
+  induction f with
+  | zero => intro n k h; simp [constVal] at h
+  | succ f ih =>
+    intro n k h hn
+    have hnd : nodes[n]? = some nodes[n] := Array.getElem?_eq_getElem hn
+    -- the value of a constant-leaved argument
+    have hav : ∀ (a : Arg) (v : I32),
+        (match a with
+          | .int k => some k
+          | .node m => if m < n then constVal nodes f m else none) = some v →
+        argBelow n a = true ∧ argVal nodes (evalNodes nodes env) a = v := by
+      intro a v ha
+      cases a with
+      | int q => simp at ha; exact ⟨rfl, by simp [argVal, ha]⟩
+      | node m =>
+        simp only at ha
+        split at ha
+        · rename_i hm
+          exact ⟨by simp [argBelow, hm], ih m v ha (by omega)⟩
+        · cases ha
+    unfold constVal at h
+    rw [hnd] at h
+    cases hk : nodes[n] with
+    | const ty v =>
+      rw [hk] at h
+      simp only at h
+      injection h with h
+      subst h
+      exact nodeVal_const nodes env n hn ty v hk
+    | arith op a b ty =>
+      rw [hk] at h
+      simp only [Option.bind_eq_some_iff, Option.map_eq_some_iff] at h
+      obtain ⟨xa, ha, xb, hb, hv⟩ := h
+      obtain ⟨ha1, ha2⟩ := hav a xa ha
+      obtain ⟨hb1, hb2⟩ := hav b xb hb
+      rw [nodeVal_arith nodes env n hn op a b ty hk ha1 hb1, ha2, hb2, hv]
+    | cmp op a b ty =>
+      rw [hk] at h
+      simp only [Option.bind_eq_some_iff, Option.map_eq_some_iff] at h
+      obtain ⟨xa, ha, xb, hb, hv⟩ := h
+      obtain ⟨ha1, ha2⟩ := hav a xa ha
+      obtain ⟨hb1, hb2⟩ := hav b xb hb
+      rw [nodeVal_cmp nodes env n hn op a b ty hk ha1 hb1, ha2, hb2, hv]
+    | land a b ty =>
+      rw [hk] at h
+      simp only [Option.bind_eq_some_iff, Option.map_eq_some_iff] at h
+      obtain ⟨xa, ha, xb, hb, hv⟩ := h
+      obtain ⟨ha1, ha2⟩ := hav a xa ha
+      obtain ⟨hb1, hb2⟩ := hav b xb hb
+      rw [nodeVal_land nodes env n hn a b ty hk ha1 hb1, ha2, hb2, hv]
+    | lor a b ty =>
+      rw [hk] at h
+      simp only [Option.bind_eq_some_iff, Option.map_eq_some_iff] at h
+      obtain ⟨xa, ha, xb, hb, hv⟩ := h
+      obtain ⟨ha1, ha2⟩ := hav a xa ha
+      obtain ⟨hb1, hb2⟩ := hav b xb hb
+      rw [nodeVal_lor nodes env n hn a b ty hk ha1 hb1, ha2, hb2, hv]
+    | lnot a ty =>
+      rw [hk] at h
+      simp only [Option.map_eq_some_iff] at h
+      obtain ⟨xa, ha, hv⟩ := h
+      obtain ⟨ha1, ha2⟩ := hav a xa ha
+      rw [nodeVal_lnot nodes env n hn a ty hk ha1, ha2, hv]
+    | proj a ty =>
+      rw [hk] at h
+      simp only at h
+      obtain ⟨ha1, ha2⟩ := hav a k h
+      rw [nodeVal_proj nodes env n hn a ty hk ha1, ha2]
+    | gate op a b w ty =>
+      rw [hk] at h
+      simp only [Option.bind_eq_some_iff, Option.map_eq_some_iff] at h
+      obtain ⟨xa, ha, xb, hb, xw, hw, hv⟩ := h
+      obtain ⟨ha1, ha2⟩ := hav a xa ha
+      obtain ⟨hb1, hb2⟩ := hav b xb hb
+      obtain ⟨hw1, hw2⟩ := hav w xw hw
+      rw [nodeVal_gate nodes env n hn op a b w ty hk ha1 hb1 hw1, ha2, hb2, hw2, hv]
+    | _ => rw [hk] at h; simp at h
+
 /-! ## the per-node theorem and its closure over the program -/
 
 theorem sound_input (x : Ctx) (n e : Nat) (s : Sig) (name ty : Sig) (v : I32)
@@ -1934,13 +2023,9 @@ theorem checkNode_sound (x : Ctx) (n : Nat) (hn : n < x.nodes.size)
     | konst k =>
       rw [hb] at h
       simp only at h
-      cases hk : x.nodes[n] with
-      | const ty v =>
-        rw [hk] at h hnd
-        have : v = k := by simpa using h
-        subst this
-        exact sound_const_konst x n ty v hnd hb
-      | _ => rw [hk] at h; simp at h
+      unfold Holds
+      rw [hb]
+      exact constVal_sound x.nodes x.env (n + 1) n k (by simpa using h) hn
     | ent e s =>
       rw [hb] at h
       simp only at h
